@@ -379,7 +379,7 @@ def pThe (env : Env) : Nat → List Tok → Option (Expr × List Tok)
             | some (e, r3) =>
               -- `the P of sprite a intersects b`: the object is the intersection test, not sprite a
               let isTest := match r3 with | t3 :: _ => t3.kw "intersects" || t3.kw "within" | [] => false
-              if isTest then
+              if isTest && (tblLookupName tblSprite p).isNone then
                 match pE5 env f r1 with
                 | some (e', r3') => some (.oprop p e', r3')
                 | none => none
